@@ -169,6 +169,16 @@ main(int argc, char **argv)
 	err = br_ssl_engine_last_error(P.s.eng);
 	PUBLIC(&err, sizeof err);
 	memcpy(ms, P.s.eng->session.master_secret, 48);
+	{
+		/* self-check of the taint flow: the master secret must be secret-derived */
+		unsigned char vb[48];
+		int tainted = 0, j;
+		memset(vb, 0, sizeof vb);
+		if (RUNNING_ON_VALGRIND && VALGRIND_GET_VBITS(ms, vb, 48) == 1) {
+			for (j = 0; j < 48; j ++) tainted += vb[j] != 0;
+		}
+		printf("TAINTED %d\n", tainted);
+	}
 	PUBLIC(ms, sizeof ms);
 	dig = vf_fnv(ms, 48, 0);
 	if (vf_argi(argc, argv, "--nodigest", 0)) printf("DIGEST -\n");
